@@ -230,3 +230,22 @@ Example tsv_taxonomy_with_empty_levels_runs :
   roundtrip TsvExamples.fmt TsvExamples.parse fmt_sc proc_sc brk_univ true TsvExamples2.c32tax
             (mkO (Some TsvExamples.k_tax) (Some TsvExamples.k_tax)) = ROk TsvExamples2.c32tax.
 Proof. exact TsvExamples2.empty_levels_run. Qed.
+
+(* ---- translator tie (DESIGN 3.1 T14): the writer regenerated from biom/table.py by
+   tools/py2v_tsv (Gen/TsvGen.v, Table.delimited_self with direct_io=None) is the hand-written
+   writer of Model/Tsv.v, for both oracles (number text, metadata formatter), every table and
+   every header_key / header_value / observation_column_name.  With a metadata column the code
+   reads the metadata through the identifier index, so the class invariant xwf (distinct ids, one
+   metadata entry per observation) is needed there; the default call needs nothing. ---- *)
+From BiomV Require Import Gen.TsvPrelude Gen.TsvGen Proofs.GenBridgeTsvProofs.
+Theorem delimited_self_is_source_partial : forall fmt format c hk hv ocn,
+  xwf c ->
+  delimited_self fmt format c [TAB] hk hv ocn = to_tsv_text fmt format c (mkO3 hk hv ocn).
+Proof. exact delimited_self_gen_is_source_partial. Qed.
+Print Assumptions delimited_self_is_source_partial.
+Example delimited_self_is_source_partial_hypothesis_holds : xwf TsvExamples.c22md.
+Proof. apply xwfb_xwf. vm_compute. reflexivity. Qed.
+Theorem delimited_self_default_is_source : forall fmt format c ocn,
+  delimited_self fmt format c [TAB] None None ocn = to_tsv_text fmt format c (mkO3 None None ocn).
+Proof. exact delimited_self_gen_default_is_source. Qed.
+Print Assumptions delimited_self_default_is_source.
